@@ -90,16 +90,27 @@ theorem pres_evalSeq {ev : Expr → M Out} (hev : ∀ e, Pres R (ev e)) :
 end calculus
 
 /-- `R` tolerates changes of the frame-private part of the state (locals, script-function table). -/
-def FrameOk (R : Rel) : Prop := ∀ f : Env → Env, (∀ s, (f s).prot = s.prot ∧ (f s).calls = s.calls) → Pres R (M.modify f)
+def FrameOk (R : Rel) : Prop := ∀ f : Env → Env, (∀ s, (f s).prot = s.prot ∧ (f s).calls = s.calls ∧ (f s).reads = s.reads) → Pres R (M.modify f)
 /-- `R` tolerates changes of the protected state (true of the call-log relation, false of noninterference). -/
-def ProtOk (R : Rel) : Prop := ∀ f : Env → Env, (∀ s, (f s).calls = s.calls) → Pres R (M.modify f)
+def ProtOk (R : Rel) : Prop := ∀ f : Env → Env, (∀ s, (f s).calls = s.calls ∧ (f s).reads = s.reads) → Pres R (M.modify f)
+/-- `R` tolerates the ghost entry of a read that `GetFieldByName` lets through when called with the flag `sb`. -/
+def ReadOk (R : Rel) (cfg : Cfg) (sb : Bool) : Prop :=
+  ∀ t f, (sb && cfg.fieldCheck && cfg.hidden t f) = false →
+    Pres R (M.modify fun e => { e with reads := (t, f) :: e.reads })
 /-- `R` tolerates invoking a native that is flagged side-effect free. -/
 def InvokeOk (R : Rel) (cfg : Cfg) : Prop :=
   ∀ name f self args, cfg.native name = some f → f.safe = true → Pres R (invokeNative cfg name f self args)
 
-theorem pres_frame {R : Rel} (h : FrameOk R) {f : Env → Env} (hf : ∀ s, (f s).prot = s.prot ∧ (f s).calls = s.calls) :
+/-- `R` tolerates the log entry of a native flagged side-effect free (the higher-order natives log themselves). -/
+def LogOk (R : Rel) (cfg : Cfg) : Prop :=
+  ∀ name f, cfg.native name = some f → f.safe = true →
+    Pres R (M.modify fun e => { e with calls := .native name :: e.calls })
+/-- Every higher-order native tests its callback's flag under `Sandboxed` (array-script.cpp:83-212; generated). -/
+def CbChecks (cfg : Cfg) : Prop := ∀ n, n ∈ hofNames → cfg.cbCheck n = true
+
+theorem pres_frame {R : Rel} (h : FrameOk R) {f : Env → Env} (hf : ∀ s, (f s).prot = s.prot ∧ (f s).calls = s.calls ∧ (f s).reads = s.reads) :
     Pres R (M.modify f) := h f hf
-theorem pres_prot {R : Rel} (h : ProtOk R) {f : Env → Env} (hf : ∀ s, (f s).calls = s.calls) :
+theorem pres_prot {R : Rel} (h : ProtOk R) {f : Env → Env} (hf : ∀ s, (f s).calls = s.calls ∧ (f s).reads = s.reads) :
     Pres R (M.modify f) := h f hf
 
 /-- Try every closure rule of the calculus, splitting `if`/`match` on the way. -/
@@ -114,8 +125,8 @@ macro_rules
         | exact pres_get
         | exact pres_liftE _
         | exact pres_guardCheck _ _ _
-        | (apply pres_frame (by assumption); intro s; exact ⟨rfl, rfl⟩)
-        | (apply pres_prot (by assumption); intro s; rfl)
+        | (apply pres_frame (by assumption); intro s; exact ⟨rfl, rfl, rfl⟩)
+        | (apply pres_prot (by assumption); intro s; exact ⟨rfl, rfl⟩)
         | apply pres_when
         | apply pres_chk
         | apply pres_bind
@@ -126,14 +137,16 @@ macro_rules
 variable {R : Rel}
 
 theorem pres_readVar (n : String) : Pres R (readVar n) := by unfold readVar; pres_auto
-theorem pres_getField (cfg sb v f) : Pres R (getField cfg sb v f) := by unfold getField; pres_auto
+theorem pres_getField (cfg sb) (hRd : ReadOk R cfg sb) (v f) : Pres R (getField cfg sb v f) := by
+  unfold getField; pres_auto
+  all_goals (apply hRd; simp_all)
 theorem pres_writeLocal (hF : FrameOk R) (n v) : Pres R (writeLocal n v) := by unfold writeLocal; pres_auto
 theorem pres_combine (op a b) : Pres R (combine op a b) := by unfold combine; pres_auto
 theorem pres_writeGlobal (hP : ProtOk R) (n v) : Pres R (writeGlobal n v) := by unfold writeGlobal; pres_auto
 theorem pres_writeAttr (hP : ProtOk R) (o f v) : Pres R (writeAttr o f v) := by unfold writeAttr; pres_auto
-theorem pres_refRead (cfg r) : Pres R (refRead cfg r) := by
+theorem pres_refRead (cfg) (hRr : ReadOk R cfg cfg.refGetSandboxed) (r) : Pres R (refRead cfg r) := by
   unfold refRead; split
-  · exact pres_getField _ _ _ _
+  · exact pres_getField _ _ hRr _ _
   · exact pres_fail _
 theorem pres_refWrite (hF : FrameOk R) (hP : ProtOk R) (r v) : Pres R (refWrite r v) := by
   unfold refWrite; split
@@ -157,15 +170,15 @@ macro_rules
         | exact pres_liftE _
         | exact pres_guardCheck _ _ _
         | exact pres_readVar _
-        | exact pres_getField _ _ _ _
+        | exact pres_getField _ _ (by assumption) _ _
         | exact pres_combine _ _ _
-        | exact pres_refRead _ _
+        | exact pres_refRead _ (by assumption) _
         | exact pres_refWrite (by assumption) (by assumption) _ _
         | exact pres_writeLocal (by assumption) _ _
         | exact pres_writeGlobal (by assumption) _ _
         | exact pres_writeAttr (by assumption) _ _ _
-        | (apply pres_frame (by assumption); intro s; exact ⟨rfl, rfl⟩)
-        | (apply pres_prot (by assumption); intro s; rfl)
+        | (apply pres_frame (by assumption); intro s; exact ⟨rfl, rfl, rfl⟩)
+        | (apply pres_prot (by assumption); intro s; exact ⟨rfl, rfl⟩)
         | apply pres_when
         | apply pres_chk
         | apply pres_bind
@@ -173,22 +186,57 @@ macro_rules
         | intro _
         | split))
 
-theorem pres_initDict (cfg : Cfg) (sb : Bool) (hF : FrameOk R) (hP : ProtOk R) {ev : Expr → M Out}
+theorem pres_initDict (cfg : Cfg) (sb : Bool) (hRd : ReadOk R cfg sb) (hF : FrameOk R) (hP : ProtOk R) {ev : Expr → M Out}
     (hev : ∀ e, Pres R (ev e)) (o : Expr) : Pres R (initDict cfg sb ev o) := by
   unfold initDict
   pres_node
   all_goals exact hev _
 
-theorem pres_findImport (cfg : Cfg) (sb : Bool) {ev : Expr → M Out} (hev : ∀ e, Pres R (ev e)) (name : String) :
+theorem pres_findImport (cfg : Cfg) (sb : Bool) (hRi : ReadOk R cfg (sb && cfg.importSandboxed)) {ev : Expr → M Out} (hev : ∀ e, Pres R (ev e)) (name : String) :
     ∀ imports, Pres R (findImport cfg sb ev imports name)
   | [] => by unfold findImport; pres_node
   | imp :: rest => by
-    have ih := pres_findImport cfg sb hev name rest
+    have ih := pres_findImport cfg sb hRi hev name rest
     unfold findImport
     pres_node
     all_goals exact hev _
 
-theorem pres_callValue (cfg : Cfg) (hcc : cfg.callCheck = true) (hF : FrameOk R) (hI : InvokeOk R cfg)
+theorem pres_invokeEach {inv : List Value → M Value} (hinv : ∀ a, Pres R (inv a)) :
+    ∀ l, Pres R (invokeEach inv l)
+  | [] => by unfold invokeEach; exact pres_pure _
+  | a :: rest => by
+    unfold invokeEach
+    exact pres_bind (hinv a) fun _ => pres_invokeEach hinv rest
+
+/-- A higher-order native in a sandboxed frame whose body has the callback test: it either refuses the callback or
+    invokes only natives flagged side-effect free. -/
+theorem pres_hofInvoke (cfg : Cfg) (hI : InvokeOk R cfg) (hL : LogOk R cfg) {ev : Expr → M Out}
+    (name : String) (f : Native) (hn : cfg.native name = some f) (hs : f.safe = true) (hcb : cfg.cbCheck name = true)
+    (self : Value) (vs : List Value) : Pres R (hofInvoke cfg true ev name self vs) := by
+  unfold hofInvoke
+  apply pres_bind (hL name f hn hs); intro _
+  cases self <;> simp only [] <;> try exact pres_fail _
+  case arr l =>
+    cases vs with
+    | nil => simp only []; split <;> first | exact pres_pure _ | exact pres_fail _
+    | cons v rest =>
+      cases v <;> simp only [] <;> try exact pres_fail _
+      case fn cb =>
+        cases hg : cfg.native cb with
+        | none => exact pres_fail _
+        | some g =>
+          simp only [hcb, Bool.true_and]
+          cases hgs : g.safe with
+          | false => simp only [Bool.not_false, if_true]; exact pres_fail _
+          | true =>
+            simp only [Bool.not_true, Bool.false_eq_true, if_false]
+            apply pres_bind (pres_invokeEach (fun a => hI cb g .empty a hg hgs) _); intro _
+            exact pres_pure _
+      case closure id =>
+        simp only [hcb, Bool.and_self, if_true]
+        exact pres_fail _
+
+theorem pres_callValue (cfg : Cfg) (hcc : cfg.callCheck = true) (hcbs : CbChecks cfg) (hL : LogOk R cfg) (hF : FrameOk R) (hI : InvokeOk R cfg)
     (hct : (∀ t, cfg.ctorEffect t = false) ∨ ProtOk R)
     {ev : Expr → M Out} (hev : ∀ e, Pres R (ev e))
     {evArgs : List Expr → (List Value → M Out) → M Out}
@@ -205,7 +253,10 @@ theorem pres_callValue (cfg : Cfg) (hcc : cfg.callCheck = true) (hF : FrameOk R)
       | true =>
         simp only [Bool.not_true, Bool.false_and, Bool.false_eq_true, if_false]
         apply hargs; intro vs
-        apply pres_bind (hI name f self vs hn hs); intro r; exact pres_pure _
+        split
+        · rename_i hh
+          exact pres_hofInvoke cfg hI hL name f hn hs (hcbs name (by simpa using hh)) self vs
+        · apply pres_bind (hI name f self vs hn hs); intro r; exact pres_pure _
   case closure id =>
     simp only [hcc, Bool.and_self, if_true]
     exact pres_fail _
@@ -239,12 +290,13 @@ theorem pres_loopFor (hF : FrameOk R) {ev : Expr → M Out} (hev : ∀ e, Pres R
     evaluation relates the states before and after by `R`, provided `R` tolerates frame-private
     changes and safe natives, and either every mutating node kind is guarded or `R` does not care about
     the protected state. -/
-theorem eval_pres (cfg : Cfg) (hcc : cfg.callCheck = true) (hF : FrameOk R) (hI : InvokeOk R cfg)
+theorem eval_pres (cfg : Cfg) (hcc : cfg.callCheck = true) (hcbs : CbChecks cfg) (hL : LogOk R cfg) (hF : FrameOk R) (hI : InvokeOk R cfg)
+    (hRd : ReadOk R cfg true) (hRr : ReadOk R cfg cfg.refGetSandboxed) (hRi : ReadOk R cfg (true && cfg.importSandboxed))
     (hP : ((∀ k, mutating k = true → cfg.guard k = true) ∧ (∀ t, cfg.ctorEffect t = false)) ∨ ProtOk R) :
     ∀ (n : Nat) (e : Expr), Pres R (eval cfg true n e)
   | 0, _ => by unfold eval; exact pres_fail _
   | n + 1, e => by
-    have ih : ∀ e, Pres R (eval cfg true n e) := eval_pres cfg hcc hF hI hP n
+    have ih : ∀ e, Pres R (eval cfg true n e) := eval_pres cfg hcc hcbs hL hF hI hRd hRr hRi hP n
     unfold eval
     rcases hP with ⟨hg, hct⟩ | hP
     · by_cases hm : mutating e.kind = true
@@ -264,11 +316,11 @@ theorem eval_pres (cfg : Cfg) (hcc : cfg.callCheck = true) (hF : FrameOk R) (hI 
           | exact ih _
           | exact pres_evalSeq ih _ _
           | (apply pres_evalList ih; intro vs; pres_node)
-          | (exact pres_callValue cfg hcc hF hI (Or.inl hct) ih (fun es k hk => pres_evalList ih es k hk) _ _ _)
+          | (exact pres_callValue cfg hcc hcbs hL hF hI (Or.inl hct) ih (fun es k hk => pres_evalList ih es k hk) _ _ _)
           | exact pres_loopWhile ih _ _ _
           | exact pres_loopFor hF ih _ _ _ _
-          | exact pres_findImport cfg true ih _ _
-          | exact pres_initDict cfg true hF (by assumption) ih _
+          | exact pres_findImport cfg true hRi ih _ _
+          | exact pres_initDict cfg true hRd hF (by assumption) ih _
           | skip
     · apply pres_bind (pres_guardCheck _ _ _); intro _
       cases e <;> simp only [evalNode]
@@ -279,11 +331,11 @@ theorem eval_pres (cfg : Cfg) (hcc : cfg.callCheck = true) (hF : FrameOk R) (hI 
         | exact ih _
         | exact pres_evalSeq ih _ _
         | (apply pres_evalList ih; intro vs; pres_node)
-        | (exact pres_callValue cfg hcc hF hI (Or.inr hP) ih (fun es k hk => pres_evalList ih es k hk) _ _ _)
+        | (exact pres_callValue cfg hcc hcbs hL hF hI (Or.inr hP) ih (fun es k hk => pres_evalList ih es k hk) _ _ _)
         | exact pres_loopWhile ih _ _ _
         | exact pres_loopFor hF ih _ _ _ _
-        | exact pres_findImport cfg true ih _ _
-        | exact pres_initDict cfg true hF (by assumption) ih _
+        | exact pres_findImport cfg true hRi ih _ _
+        | exact pres_initDict cfg true hRd hF (by assumption) ih _
         | skip
 
 /-! ### The two relations -/
@@ -309,9 +361,9 @@ def SafeNativesPure (cfg : Cfg) : Prop :=
 
 theorem frameOk_protEq : FrameOk protEq := fun f hf => ⟨fun s => (hf s).1⟩
 theorem frameOk_callsOk (cfg : Cfg) : FrameOk (callsOk cfg) :=
-  fun f hf => ⟨fun s c hc => Or.inl (by have := (hf s).2; simp only [M.modify] at hc; rw [this] at hc; exact hc)⟩
+  fun f hf => ⟨fun s c hc => Or.inl (by have := (hf s).2.1; simp only [M.modify] at hc; rw [this] at hc; exact hc)⟩
 theorem protOk_callsOk (cfg : Cfg) : ProtOk (callsOk cfg) :=
-  fun f hf => ⟨fun s c hc => Or.inl (by have := hf s; simp only [M.modify] at hc; rw [this] at hc; exact hc)⟩
+  fun f hf => ⟨fun s c hc => Or.inl (by have := (hf s).1; simp only [M.modify] at hc; rw [this] at hc; exact hc)⟩
 
 theorem runOpaque_snd (f : Native) (self : Value) (args : List Value) (s : Env) :
     (runOpaque f self args s).2 = { s with prot := (f.run self args s.prot).2 } := by
@@ -324,12 +376,15 @@ theorem runOpaque_snd (f : Native) (self : Value) (args : List Value) (s : Env) 
 /-- The built-in `Reference#set` writes: it must not be flagged side-effect free. -/
 def RefSetUnsafe (cfg : Cfg) : Prop := ∀ f, cfg.native "Reference#set" = some f → f.safe = false
 
+theorem readOk_protEq (cfg : Cfg) (sb : Bool) : ReadOk protEq cfg sb := fun _ _ _ => ⟨fun _ => rfl⟩
+theorem readOk_callsOk (cfg : Cfg) (sb : Bool) : ReadOk (callsOk cfg) cfg sb := fun _ _ _ => ⟨fun _ _ hc => Or.inl hc⟩
+
 theorem invokeOk_protEq (cfg : Cfg) (hp : SafeNativesPure cfg) (hset : RefSetUnsafe cfg) : InvokeOk protEq cfg := by
   intro name f self args hn hs
   unfold invokeNative
   apply pres_bind ⟨fun s => rfl⟩; intro _
   split
-  · exact pres_refRead _ _
+  · exact pres_refRead _ (readOk_protEq cfg _) _
   · split
     · rename_i h; subst h
       have := hset f hn
@@ -351,11 +406,60 @@ theorem invokeOk_callsOk (cfg : Cfg) : InvokeOk (callsOk cfg) cfg := by
     · exact Or.inl hc
   intro _
   split
-  · exact pres_refRead _ _
+  · exact pres_refRead _ (readOk_callsOk cfg _) _
   · split
     · apply pres_bind (pres_refWrite hF hP _ _); intro _; exact pres_pure _
     · refine ⟨fun s c hc => ?_⟩
       rw [runOpaque_snd] at hc
       exact Or.inl hc
+
+theorem logOk_protEq (cfg : Cfg) : LogOk protEq cfg := fun _ _ _ _ => ⟨fun _ => rfl⟩
+theorem logOk_callsOk (cfg : Cfg) : LogOk (callsOk cfg) cfg := by
+  intro name f hn hs
+  refine ⟨fun s c hc => ?_⟩
+  simp only [M.modify, List.mem_cons] at hc
+  rcases hc with rfl | hc
+  · right; simp [safeCallee, hn, hs]
+  · exact Or.inl hc
+
+/-! ### Confidentiality: the ghost log of attribute reads -/
+
+/-- Every attribute value handed to the script is old or of a field that is not hidden from API users. -/
+def readsOk (cfg : Cfg) : Rel where
+  r a b := ∀ x ∈ b.reads, x ∈ a.reads ∨ cfg.hidden x.1 x.2 = false
+  refl _ x hx := Or.inl hx
+  trans a b c h1 h2 x hx := by
+    rcases h2 x hx with h | h
+    · exact h1 x h
+    · exact Or.inr h
+
+theorem frameOk_readsOk (cfg : Cfg) : FrameOk (readsOk cfg) :=
+  fun f hf => ⟨fun s x hx => Or.inl (by have := (hf s).2.2; simp only [M.modify] at hx; rw [this] at hx; exact hx)⟩
+theorem protOk_readsOk (cfg : Cfg) : ProtOk (readsOk cfg) :=
+  fun f hf => ⟨fun s x hx => Or.inl (by have := (hf s).2; simp only [M.modify] at hx; rw [this] at hx; exact hx)⟩
+theorem logOk_readsOk (cfg : Cfg) : LogOk (readsOk cfg) cfg := fun _ _ _ _ => ⟨fun _ _ hx => Or.inl hx⟩
+
+/-- With the no_user_view check in place, a read that `GetFieldByName(…, sandboxed = true, …)` lets through is of a visible field. -/
+theorem readOk_readsOk (cfg : Cfg) (hf : cfg.fieldCheck = true) : ReadOk (readsOk cfg) cfg true := by
+  intro t f h
+  refine ⟨fun s x hx => ?_⟩
+  simp only [M.modify, List.mem_cons] at hx
+  rcases hx with rfl | hx
+  · right; simpa [hf] using h
+  · exact Or.inl hx
+
+theorem invokeOk_readsOk (cfg : Cfg) (hf : cfg.fieldCheck = true) (hr : cfg.refGetSandboxed = true) : InvokeOk (readsOk cfg) cfg := by
+  intro name f self args hn hs
+  have hF := frameOk_readsOk cfg
+  have hP := protOk_readsOk cfg
+  unfold invokeNative
+  apply pres_bind (logOk_readsOk cfg name f hn hs); intro _
+  split
+  · exact pres_refRead _ (by rw [hr]; exact readOk_readsOk cfg hf) _
+  · split
+    · apply pres_bind (pres_refWrite hF hP _ _); intro _; exact pres_pure _
+    · refine ⟨fun s x hx => ?_⟩
+      rw [runOpaque_snd] at hx
+      exact Or.inl hx
 
 end Icinga.C19
